@@ -187,6 +187,12 @@ def main(argv):
             audit.EVENTS[:] = audit_was
             results.append(res)
             continue
+        if op == "set_home":          # the user points TRAFFIC_WEAVER_DATA somewhere else in the same process
+            home = step["home"]
+            os.makedirs(home, exist_ok=True)
+            os.environ["TRAFFIC_WEAVER_DATA"] = home
+            results.append(res)
+            continue
         if op == "listing":
             res["listing"] = listing(home)
             results.append(res)
